@@ -49,6 +49,8 @@ fn run<T: Sc>(case: &C14Case) -> Check {
     // quadratic forms and their rounding bounds
     let mut forms = vec![0.0; n];
     let mut bounds = vec![0.0; n];
+    // largest partial sum the evaluation of the form may meet in the scalar type under test
+    let mut magnitude = vec![0.0; n];
     for i in 0..n {
         let (mut f, mut b) = (0.0, 0.0);
         for a in 0..q {
@@ -60,6 +62,7 @@ fn run<T: Sc>(case: &C14Case) -> Check {
         }
         forms[i] = f;
         bounds[i] = k * b;
+        magnitude[i] = b;
     }
     let usable = cov.all_finite() && j.all_finite();
     let mut prev: Option<(f64, Vec<T>)> = None;
@@ -83,6 +86,13 @@ fn run<T: Sc>(case: &C14Case) -> Check {
             let t_o = t_two_sided(pt.f(), nu);
             for i in 0..n {
                 let ri = r[i].f();
+                // intermediates beyond the range of the scalar type (seen in f32: nanosecond units,
+                // nu = 2, zero weights — a covariance of 1e20+ whose products overflow f32 although
+                // the form itself is moderate): no finite value can be demanded
+                if !(magnitude[i] * (q * q) as f64 <= T::huge() / 16.0) {
+                    out.skip("c14.value:intermediates-beyond-the-range-of-the-scalar-type");
+                    continue;
+                }
                 if bounds[i] >= 0.5 * forms[i].abs() || forms[i] <= 0.0 {
                     out.skip("c14.value:sign-of-quadratic-form-not-determined");
                     continue;
